@@ -12,11 +12,11 @@ namespace Liquer
 /-- metadata-only writes on absent keys are refused by the reference store -/
 def kvCfgStore : KVCfg := { keepData := true, metaFresh := false, metaFreshRes := false }
 
-theorem FS.get_eq (fs : FS) (k : Key) : fs.get k = AL.get fs k := rfl
-theorem FS.set_eq (fs : FS) (k : Key) (n : Node) : fs.set k n = AL.set fs k n := rfl
-theorem FS.erase_eq (fs : FS) (k : Key) : fs.erase k = AL.erase fs k := rfl
+theorem FS.get_eq_AL (fs : FS) (k : Key) : fs.get k = AL.get fs k := rfl
+theorem FS.set_eq_AL (fs : FS) (k : Key) (n : Node) : fs.set k n = AL.set fs k n := rfl
+theorem FS.erase_eq_AL (fs : FS) (k : Key) : fs.erase k = AL.erase fs k := rfl
 
-theorem FS.get_mkdirs (fs : FS) (ks : List Key) (k : Key) (h : k ∉ ks) : (fs.mkdirs ks).get k = fs.get k := by
+theorem FS.get_mkdirs_of_notMem (fs : FS) (ks : List Key) (k : Key) (h : k ∉ ks) : (fs.mkdirs ks).get k = fs.get k := by
   unfold FS.mkdirs
   induction ks generalizing fs with
   | nil => rfl
@@ -26,7 +26,7 @@ theorem FS.get_mkdirs (fs : FS) (ks : List Key) (k : Key) (h : k ∉ ks) : (fs.m
     have hne : (k == a) = false := by simpa using fun (e : k = a) => h (by rw [e]; exact List.mem_cons_self ..)
     split
     · rfl
-    · rw [FS.set_eq, FS.get_eq, AL.get_set, hne]; rfl
+    · rw [FS.set_eq_AL, FS.get_eq_AL, AL.get_set, hne]; rfl
 
 namespace StoreC
 
@@ -68,7 +68,7 @@ def okSt (U : Str → Prop) (kv : KV) (op : CacheOp) : Prop :=
   op.hasData = true ∧ op.typeStable kv = true ∧ ∃ k, op.key? = some k ∧ U k
 
 theorem storec_sim (c : StoreCCfg) (U : Str → Prop) (ok : CodecS c) (paths : PathsOK c U) :
-    Sim (storeCOps c specOps) (kvOpsC kvCfgStore) (RSt c U) (okSt U) := by
+    CSim (storeCOps c specOps) (kvOpsC kvCfgStore) (RSt c U) (okSt U) := by
   intro fs kv op R ⟨hdata, hstable, k0, hk0, hU⟩
   -- what the store shows at the path of a key in use
   have hlook : ∀ k, U k → (kv.get k = none ∧ fs.get (StoreC.toPath c k) = none) ∨
@@ -133,14 +133,14 @@ theorem storec_sim (c : StoreCCfg) (U : Str → Prop) (ok : CodecS c) (paths : P
     simp only [CacheOp.key?, Option.some.injEq] at hk0; subst hk0
     refine ⟨⟨?_, ?_, ?_⟩, outEq_refl _⟩ <;> simp only [CacheOps.step, storeCOps, kvOpsC, kvOps, specOps]
     · intro k' hk'
-      rw [FS.erase_eq, FS.get_eq, AL.get_erase, KV.get_erase]
+      rw [FS.erase_eq_AL, FS.get_eq_AL, AL.get_erase, KV.get_erase]
       by_cases h : k' = k
       · subst h; simp
       · have h1 : (k' == k) = false := by simpa using h
         rw [hpne hk' hU h, h1]
         exact R.fileOK k' hk'
     · intro k' hk'
-      rw [FS.erase_eq, FS.get_eq, AL.get_erase]
+      rw [FS.erase_eq_AL, FS.get_eq_AL, AL.get_erase]
       split
       · simp
       · exact R.noDir k' hk'
@@ -159,14 +159,14 @@ theorem storec_sim (c : StoreCCfg) (U : Str → Prop) (ok : CodecS c) (paths : P
       have hst : m.typeId = m0.typeId := by simpa [CacheOp.typeStable, h1] using hstable
       refine ⟨⟨?_, ?_, ?_⟩, outEq_refl _⟩
       · intro k' hk'
-        rw [FS.set_eq, FS.get_eq, AL.get_set, KV.get_set]
+        rw [FS.set_eq_AL, FS.get_eq_AL, AL.get_set, KV.get_set]
         by_cases h : k' = m.query
         · subst h; simp [StoreC.fileView, hst]
         · have h1' : (k' == m.query) = false := by simpa using h
           rw [hpne hk' hU h, h1']
           exact R.fileOK k' hk'
       · intro k' hk'
-        rw [FS.set_eq, FS.get_eq, AL.get_set]
+        rw [FS.set_eq_AL, FS.get_eq_AL, AL.get_set]
         split
         · simp
         · exact R.noDir k' hk'
@@ -189,19 +189,19 @@ theorem storec_sim (c : StoreCCfg) (U : Str → Prop) (ok : CodecS c) (paths : P
       simp only [CacheOps.step, storeCOps, he, Bool.false_eq_true, ↓reduceIte, specOps]
       refine ⟨⟨?_, ?_, ?_⟩, outEq_refl _⟩
       · intro k' hk'
-        rw [FS.set_eq, FS.get_eq, AL.get_set, KV.get_set]
+        rw [FS.set_eq_AL, FS.get_eq_AL, AL.get_set, KV.get_set]
         by_cases h : k' = st.metadata.query
         · subst h; simp [StoreC.fileView, hd]
         · have h1' : (k' == st.metadata.query) = false := by simpa using h
           rw [hpne hk' hU h, h1']
           simp only [Bool.false_eq_true, ↓reduceIte]
-          rw [← FS.get_eq, FS.get_mkdirs _ _ _ (paths.prefixFree _ _ hk' hU)]
+          rw [← FS.get_eq_AL, FS.get_mkdirs_of_notMem _ _ _ (paths.prefixFree _ _ hk' hU)]
           exact R.fileOK k' hk'
       · intro k' hk'
-        rw [FS.set_eq, FS.get_eq, AL.get_set]
+        rw [FS.set_eq_AL, FS.get_eq_AL, AL.get_set]
         split
         · simp
-        · rw [← FS.get_eq, FS.get_mkdirs _ _ _ (paths.prefixFree _ _ hk' hU)]
+        · rw [← FS.get_eq_AL, FS.get_mkdirs_of_notMem _ _ _ (paths.prefixFree _ _ hk' hU)]
           exact R.noDir k' hk'
       · intro k' m' d' hk
         rw [KV.get_set] at hk
